@@ -882,7 +882,17 @@ def rule_private_name_sets(check, rule):
             check.inconclusive(rule, site_of(init, init.node), 'initial value of self.%s not found' % attr, key=key)
             continue
         v = assigns[-1].value
-        fresh = isinstance(v, (ast.Set, ast.SetComp)) or (isinstance(v, ast.Call) and isinstance(v.func, ast.Name) and v.func.id in ('set', 'frozenset'))
+        def _fresh(x):
+            if isinstance(x, (ast.Set, ast.SetComp)):
+                return True
+            if isinstance(x, ast.Call) and isinstance(x.func, ast.Name) and x.func.id in ('set', 'frozenset'):
+                return True
+            if isinstance(x, ast.BinOp) and isinstance(x.op, (ast.BitOr, ast.BitAnd, ast.Sub, ast.BitXor)):
+                return _fresh(x.left) or _fresh(x.right)      # set operators build a new set
+            if isinstance(x, ast.Call) and isinstance(x.func, ast.Attribute) and x.func.attr in ('union', 'copy', 'intersection', 'difference'):
+                return True
+            return False
+        fresh = _fresh(v)
         if fresh:
             check.holds(rule, site_of(init, assigns[-1]), 'self.%s starts as a set of its own (%s)' % (attr, norm(v)[:30]), key=key)
             continue
